@@ -12,7 +12,7 @@ import traceback
 
 ROOT = os.path.dirname(os.path.dirname(os.path.abspath(__file__)))
 NATIVE_BUILDABLE = {'Packet', 'Payload'}
-STRUCTURAL = ('pre@callsite', 'frame', 'assert', 'inv-init', 'inv-keep', 'unexpected-exception', 'variant',
+STRUCTURAL = ('pre@callsite', 'frame', 'assert', 'cut', 'inv-init', 'inv-keep', 'unexpected-exception', 'variant',
               'raises', 'no-raise')
 
 
@@ -170,7 +170,8 @@ def run_property(prop, tier='quick', seed=0, jobs=12):
                     m['results'].append(r)
         outs = [merged[k] for k in order]
         for o in outs:
-            if o.get('paths') == 0 and not o.get('error') and not o.get('trusted'):
+            if o.get('paths') == 0 and not o.get('error') and not o.get('trusted') and \
+                    not o.get('lemma'):
                 o['error'] = 'out-of-subset/contract drift: no feasible path'
         # stage 2: obligations the short in-process z3 attempt left open
         open_ = [(o, r) for o in outs for r in o['results'] if r.get('smt2')]
